@@ -74,8 +74,27 @@ Proof. exact (conj qg_eq modulus_eq). Qed.
 (* TRANSLATOR TIE: the Gallina regenerated from ffg/element.go at every run
    (tools/limbgen -> Gen/FfgRoutines.v) equals the hand-written model *)
 Theorem C09_model_is_the_source :
-  ((forall x y, FfgRoutines.mulGeneric x y = mulGeneric x y) /\ (forall x y, FfgRoutines.addGeneric x y = addGeneric x y) /\ (forall z c, FfgRoutines.mulByConstant z c = mulByConstant z c)).
-Proof. exact (conj gen_mulGeneric_eq (conj gen_addGeneric_eq gen_mulByConstant_eq)). Qed.
+  ((forall x y, FfgRoutines.mulGeneric x y = mulGeneric x y) /\
+   (forall z, FfgRoutines.fromMontGeneric z = fromMontGeneric z) /\
+   (forall x y, FfgRoutines.addGeneric x y = addGeneric x y) /\
+   (forall x, FfgRoutines.doubleGeneric x = doubleGeneric x) /\
+   (forall x y, FfgRoutines.subGeneric x y = subGeneric x y) /\
+   (forall x, FfgRoutines.negGeneric x = negGeneric x) /\
+   (forall z, FfgRoutines.reduceGeneric z = reduceGeneric z) /\
+   (forall z c, FfgRoutines.mulByConstant z c = mulByConstant z c) /\
+   (forall a b, FfgRoutines.butterflyGeneric a b = butterflyGeneric a b) /\
+   (forall x, FfgRoutines.Element_Square x = square x) /\
+   (forall v, FfgRoutines.Element_SetUint64 v = setUint64 v) /\
+   (forall z, FfgRoutines.Element_ToMont z = toMont z)).
+Proof.
+  exact (conj gen_mulGeneric_eq (conj gen_fromMontGeneric_eq (conj gen_addGeneric_eq (conj gen_doubleGeneric_eq
+        (conj gen_subGeneric_eq (conj gen_negGeneric_eq (conj gen_reduceGeneric_eq (conj gen_mulByConstant_eq
+        (conj gen_butterflyGeneric_eq (conj gen_square_eq (conj gen_setUint64_eq gen_toMont_eq))))))))))).
+Qed.
+
+(* zero divisor maps to zero *)
+Theorem C09_inv_mod_zero : inv_mod 0 pg = 0.
+Proof. vm_compute. reflexivity. Qed.
 
 Print Assumptions C09_model_is_the_source.
 Print Assumptions C09_mul.
